@@ -61,10 +61,11 @@ def _atom(x):
 
 
 class W:
-    def __init__(self, wid, names, onlychanged=True, queued=False, precedence=0, mode='args', what='value', action=None):
+    def __init__(self, wid, names, onlychanged=True, queued=False, precedence=0, mode='args', what='value', action=None, pre=None):
         self.wid, self.names, self.onlychanged, self.queued = wid, tuple(names), onlychanged, queued
         self.precedence, self.mode, self.what, self.action = precedence, mode, what, action
         self.action_on = 'a'          # the callback assigns only when it is told about this parameter
+        self.pre = pre                # runs first in every call (e.g. the callback removes its own watcher)
 
 
 class Model:
@@ -136,6 +137,8 @@ class Model:
         else:
             rec = tuple(sorted((e[0], e[3]) for e in evs))
         self.trace.append((w.wid, rec, self.snap(self), self.running_queued > 0))
+        if w.pre:
+            w.pre(self)
         if w.action and w.action_on in [e[0] for e in events]:
             if self.triggering:
                 raise Unspecified('assigning callback while triggering')
